@@ -272,6 +272,50 @@ func pointWithY(y *big.Int) (*big.Int, *big.Int) {
 func (m *M) limbStruct() *big.Int {
 	pats := []uint64{0, 0, 1, 1 << 32, 1 << 63, 0xffffffff00000000, 0x00000000ffffffff, ^uint64(0), uint64(m.rng.Uint32()) << 32}
 	t := new(big.Int)
+	if m.rng.Intn(3) == 0 { // limbs RELATED to each other: what a slipped operator in an OR / XOR / AND reduction over the limbs confuses
+		a, b := m.rng.Uint64(), m.rng.Uint64()
+		if m.rng.Intn(3) == 0 {
+			a, b = uint64(m.rng.Uint32()), uint64(m.rng.Uint32())<<32
+		}
+		var l [4]uint64
+		switch m.rng.Intn(4) {
+		case 0, 1: // limb k combines the limbs below it, the limbs above are zero
+			k := 1 + m.rng.Intn(3)
+			l[0] = a
+			if k >= 2 {
+				l[1] = b
+			}
+			if k == 3 {
+				l[2] = []uint64{0, a, a ^ b, m.rng.Uint64()}[m.rng.Intn(4)]
+			}
+			var or, xor, sum uint64
+			for i := 0; i < k; i++ {
+				or, xor, sum = or|l[i], xor^l[i], sum+l[i]
+			}
+			l[k] = []uint64{or, or, xor, sum, ^or}[m.rng.Intn(5)]
+		case 2: // the two halves combine to the same word
+			l[0], l[1] = a, b
+			l[2] = a | b
+			l[3] = []uint64{0, a, b, a & b, a | b}[m.rng.Intn(5)]
+			if m.rng.Intn(2) == 0 {
+				l[2], l[3] = a^b, 0
+			}
+		default:
+			opts := []uint64{0, 0, a, b, a | b, a ^ b, a & b, ^a, a + b}
+			l = [4]uint64{a, b, opts[m.rng.Intn(len(opts))], opts[m.rng.Intn(len(opts))]}
+			m.rng.Shuffle(4, func(i, j int) { l[i], l[j] = l[j], l[i] })
+		}
+		if m.rng.Intn(4) == 0 { // the same, read from the top limb down
+			l[0], l[1], l[2], l[3] = l[3], l[2], l[1], l[0]
+		}
+		for i := 3; i >= 0; i-- {
+			t.Lsh(t, 64).Or(t, new(big.Int).SetUint64(l[i]))
+		}
+		if t.Sign() == 0 {
+			t.SetUint64(a | 1)
+		}
+		return t
+	}
 	if m.rng.Intn(4) == 0 { // exactly one non-zero limb
 		w := pats[2+m.rng.Intn(len(pats)-2)]
 		if m.rng.Intn(2) == 0 {
@@ -325,6 +369,31 @@ func (m *M) nearMontConst(mod *big.Int) *big.Int {
 		w.Add(w, new(big.Int).Lsh(one, sh))
 	}
 	return w.Mod(w, bigR)
+}
+
+// limbwiseNeighbour returns a 256-bit value whose 64-bit limbs are, independently, the modulus' limb, that limb
+// -1 / +1, 0 or all ones: what lexicographic limb-by-limb comparisons with the modulus ("is it < n?") get wrong
+// when a level of the comparison is mis-nested.  625 values per modulus.
+func (m *M) limbwiseNeighbour(mod *big.Int) *big.Int {
+	ml := bigToLimbs(mod)
+	t := new(big.Int)
+	for i := 3; i >= 0; i-- {
+		var w uint64
+		switch m.rng.Intn(6) {
+		case 0:
+			w = ml[i] - 1
+		case 1:
+			w = ml[i] + 1
+		case 2:
+			w = 0
+		case 3:
+			w = ^uint64(0)
+		default:
+			w = ml[i]
+		}
+		t.Lsh(t, 64).Or(t, new(big.Int).SetUint64(w))
+	}
+	return t
 }
 
 // highLimbsOfP returns a value below p that shares p's upper limbs: the low 1..3 limbs are small or random.
